@@ -73,7 +73,7 @@ def np_scalar(rng):
         if rng.random() < 0.5:
             return np.longdouble(rng.choice([0.5, 3.0, math.nan, -math.inf, rng.uniform(-2, 2)]))
         return np.longdouble(rng.randrange(1, 1000)) / np.longdouble(3)
-    return np.bool_(rng.random() < 0.5)
+    return np.float64(rfloat(rng))
 
 
 def plain_array(rng):
@@ -202,7 +202,7 @@ def kwargs_tree(rng):
                                 "lr": np.float64(0.001)},
         "reparameterisations": lambda: {"x": rng.choice(["default", {"reparameterisation": SomeFlow, "update_bounds": False}]),
                                         "y": None},
-        "plot": lambda: rng.choice([True, False, np.bool_(True)]),
+        "plot": lambda: rng.choice([True, False]),
         "output": lambda: "/tmp/out",
         "tolerance": lambda: rfloat(rng),
         "prior_bounds": lambda: {"x": np.array([-5.0, 5.0]), "y": (-math.inf, math.inf)},
@@ -227,7 +227,8 @@ def boundary_trees(rng):
         {"a": np.array(["a", "b"])}, {"a": np.array([None, 1], dtype=object)}, {"a": [1.0, None]}, {"a": [None]},
         {"a": [[1, 2], [3]]}, {"a": [np.arange(2), np.arange(3)]}, {"a": {}}, {"a": {}, "b": {"c": {}}},
         {"a": [1, [2]]}, {"a": [[1, None], [3]]}, {"a": [{}]}, {"a": ()}, {"a": [[], []]}, {"a": [[]]},
-        {"a": np.bool_(True), "b": [np.bool_(False), 2]}, {"a": np.longdouble(1) / 3},
+        {"a": np.bool_(True), "b": [np.bool_(False), 2]}, {"a": np.longdouble(1) / 3}, {"plot": np.bool_(False), "x": [np.bool_(True)]},
+        {"a": {"b/c": None, "d": np.bool_(True)}}, {"a": ["__none__", "x"], "b": "__none__"},
         {"a": [1.0, None], 1: 2}, {1: 2, "a": [1.0, None]}, {"a": {"b": [[1], [2, 3]]}, "a/b": 1},
     ]
     extra = []
